@@ -140,6 +140,10 @@ def non_interference(prog, rep, dc: FuncInfo, sd: FuncInfo, sv: FuncInfo) -> Non
     for s in ff.order:
         if isinstance(s.stmt, ast.Assign) and len(s.stmt.targets) == 1 and isinstance(s.stmt.targets[0], ast.Name) and not s.loops:
             defs.setdefault(s.stmt.targets[0].id, []).append(s)
+    if not written:
+        # the perturbation is not an in-place update of a local array in this function (moved into a generator / helper object the
+        # rules do not read): nothing can be said about what is perturbed
+        raise AnalysisError("deriv_check: no in-place perturbation `x[i] += eps` found in the function (finite differences not in the recognised form)")
     ok = len(written) == 1
     name = next(iter(written)) if written else None
     if ok:
